@@ -33,14 +33,10 @@ struct passwd *getpwnam(const char *n) { (void)n; return NULL; }
 int close(int fd) { (void)fd; return 0; }
 int openat(int dfd, const char *fn, int fl, ...) { (void)dfd; (void)fn; (void)fl; return -1; }
 
+#if defined TSTAMP_ONLY
 void harness(void)
 {
-	long long ts[NOCC];
 	sym_load();
-	ENV_INIT();
-	ASSUME(in.n >= 0 && in.n <= NOCC);
-	arr_init(&S, (unsigned)in.n);
-#if defined TSTAMP_ONLY
 	/* lemma: instant_to_tstamp() is the epoch second of the instant, for every instant of 2001..2099 */
 	{
 		ASSUME(in.y[0] >= 2001 && in.y[0] <= 2099 && in.mo[0] >= 1 && in.mo[0] <= 12 && in.d[0] >= 1 && in.d[0] <= 31);
@@ -57,9 +53,16 @@ void harness(void)
 		const ev_tstamp got = instant_to_tstamp(i);
 		CHECK(got == (ev_tstamp)want && (long long)got == want, "instant_to_tstamp is the occurrence's UTC epoch second");
 		WITNESS_POINT();
-		return;
 	}
-#endif
+}
+#else
+void harness(void)
+{
+	long long ts[NOCC];
+	sym_load();
+	ENV_INIT();
+	ASSUME(in.n >= 0 && in.n <= NOCC);
+	arr_init(&S, (unsigned)in.n);
 	for (unsigned k = 0; k < NOCC; k++) {
 		/* occurrence k: 2030-06-15 or -16 (the date arithmetic of instant_to_tstamp is the lemma
 		 * above, on every date), second of the day symbolic */
@@ -131,3 +134,4 @@ void harness(void)
 	}
 	WITNESS_POINT();
 }
+#endif
